@@ -86,3 +86,42 @@ func asgGen(idx int) (progCase, bool) {
 func init() {
 	semanticFamilies = append(semanticFamilies, progFamily{Name: "S10-assignment-targets", Count: func(string) int { return asgCount() }, Gen: func(_ string, idx int) (progCase, bool) { return asgGen(idx) }})
 }
+
+// S11 fields named like builtin members: an object field may carry the name of a builtin
+// member of some kind of value (`to_string`, `keys`, `len`, ...). Where the analyzer accepts
+// the declaration, the declared field is what `o.<name>` denotes - as a value of the declared
+// type, as an assignment target, through parameters and when nested.
+
+var fieldNames = []string{"to_string", "keys", "to_json", "to_json_indent", "len", "get", "set", "push", "pop", "contains", "unwrap", "is_some", "start", "end", "message", "sort", "join"}
+var fieldShapes = []string{"read", "write", "through-parameter", "nested", "with-sibling-and-display", "in-list-of-objects"}
+
+func fieldCount() int { return len(fieldNames) * len(fieldShapes) }
+
+func fieldGen(idx int) (progCase, bool) {
+	d := radix(idx, len(fieldShapes), len(fieldNames))
+	shape, name := fieldShapes[d[0]], fieldNames[d[1]]
+	obj := func(v int64) hs.Expr { return &hs.ObjLit{Fields: []hs.ObjField{{Name: name, X: hs.I(v)}}} }
+	prog := &hs.Program{}
+	var body []hs.Stmt
+	switch shape {
+	case "read":
+		body = []hs.Stmt{hs.LetS("o", obj(20)), hs.Println(hs.Bin("+", hs.Mem(hs.V("o"), name), hs.I(22)))}
+	case "write":
+		body = []hs.Stmt{hs.LetS("o", obj(20)), hs.ES(hs.Asg("=", hs.Mem(hs.V("o"), name), hs.I(5))), hs.ES(hs.Asg("+=", hs.Mem(hs.V("o"), name), hs.I(1))), hs.Println(hs.Mem(hs.V("o"), name))}
+	case "through-parameter":
+		prog.Funcs = append(prog.Funcs, hs.Fn("get_it", hs.TInt, hs.Blk(hs.Bin("*", hs.Mem(hs.V("p"), name), hs.I(2))), hs.P("p", hs.TObj(hs.Field{Name: name, T: hs.TInt}))))
+		body = []hs.Stmt{hs.Println(hs.CallN("get_it", obj(21)))}
+	case "nested":
+		body = []hs.Stmt{hs.LetS("o", &hs.ObjLit{Fields: []hs.ObjField{{Name: "inner", X: obj(1)}}}), hs.Println(hs.Bin("-", hs.Mem(hs.Mem(hs.V("o"), "inner"), name), hs.I(1)))}
+	case "with-sibling-and-display":
+		body = []hs.Stmt{hs.LetS("o", &hs.ObjLit{Fields: []hs.ObjField{{Name: name, X: hs.I(1)}, {Name: "other", X: hs.S("s")}}}), hs.Println(hs.V("o")), hs.Println(hs.Mem(hs.V("o"), name), hs.Mem(hs.V("o"), "other"))}
+	case "in-list-of-objects":
+		body = []hs.Stmt{hs.LetS("l", hs.List(obj(1), obj(2))), hs.LetS("t", hs.I(0)), &hs.For{Var: "x", Iter: hs.V("l"), Body: hs.Blk(nil, hs.ES(hs.Asg("+=", hs.V("t"), hs.Mem(hs.V("x"), name))))}, hs.Println(hs.V("t"))}
+	}
+	prog.Funcs = append(prog.Funcs, hs.Fn("main", nil, hs.Blk(nil, body...)))
+	return mkCase(prog, "field:"+name, "shape:"+shape), true
+}
+
+func init() {
+	semanticFamilies = append(semanticFamilies, progFamily{Name: "S11-fields-named-like-members", Count: func(string) int { return fieldCount() }, Gen: func(_ string, idx int) (progCase, bool) { return fieldGen(idx) }})
+}
